@@ -11,6 +11,7 @@ import (
 
 	sdkmath "cosmossdk.io/math"
 	sdk "github.com/cosmos/cosmos-sdk/types"
+	authtypes "github.com/cosmos/cosmos-sdk/x/auth/types"
 	banktypes "github.com/cosmos/cosmos-sdk/x/bank/types"
 	porttypes "github.com/cosmos/ibc-go/v8/modules/core/05-port/types"
 
@@ -160,7 +161,7 @@ func (s *State) JudgeAdmin(a Admin) AdminVerdict {
 type Env struct {
 	// deposit | reescrow | ftf_pause | ftf_unpause | blacklist | unblacklist | burn_limit |
 	// cctp_pause_burn | cctp_unpause_burn | cctp_pause_msgs | cctp_unpause_msgs | hyp_unenroll | hyp_enroll |
-	// next_block
+	// next_block | send_disable | send_enable (bank's per-denomination send switch, Denom)
 	// (the Hyperlane steps use Denom for the token and Amount for the domain; next_block uses Amount
 	// for the number of blocks the chain advances by)
 	Kind    string `json:"kind"`
@@ -316,6 +317,13 @@ func (m *Machine) doEnv(e Env) world.TxResult {
 		cur := m.W.App.TransferKeeper.GetTotalEscrowForDenom(m.Ctx, e.Denom)
 		m.W.App.TransferKeeper.SetTotalEscrowForDenom(m.Ctx, cur.Add(coin))
 		return world.TxResult{}
+	case "send_disable", "send_enable":
+		// the bank's per-denomination send switch, set by the bank module's authority (governance):
+		// it governs bank MsgSend (the internal route), not the keeper-level movements
+		return m.W.Tx(m.Ctx, &banktypes.MsgSetSendEnabled{
+			Authority:   authtypes.NewModuleAddress("gov").String(),
+			SendEnabled: []*banktypes.SendEnabled{{Denom: e.Denom, Enabled: e.Kind == "send_enable"}},
+		})
 	case "ftf_pause":
 		return m.W.Tx(m.Ctx, &ftftypes.MsgPause{From: world.Addr("ftf-pauser").String()})
 	case "ftf_unpause":
